@@ -82,6 +82,16 @@ def schema_omits_init_false_field(v):
 
 
 @predicate
+def field_namedtuple_engine_shadows_format_dialect(v):
+    """F45: field option serialize='as_dict' / 'as_list' travels with the spec into the NamedTuple's members, where
+    get_overridden_serialization_method returns the engine string before any dialect strategy is consulted; a member
+    of a type the format dialect passes through (bytes under msgpack, UUID / datetime under orjson ...) is then
+    converted by the built-in rendering."""
+    f = v.get("facts", {})
+    return bool(f.get("field_engine_over_format_native")) and ("ref-mismatch" in v.get("sig", "") or "document-differs-from-reference" in v.get("sig", ""))
+
+
+@predicate
 def schema_property_names_typed_as_python_key(v):
     """F10: propertyNames of a mapping schema is the schema of the Python key type (integer, number, enum of ints, ...)
     although JSON object keys are always strings."""
